@@ -1,6 +1,6 @@
 (** Executable entry point of the C13 model for the correspondence check. *)
 From Coq Require Import List ZArith NArith Bool.
-From LV Require Import Base.Sexp Base.Bytes Router.Url ServerFn.ErrorCodec ServerFn.Protocol.
+From LV Require Import Base.Sexp Base.Bytes Router.Url ServerFn.ErrorCodec ServerFn.Protocol ServerFn.Websocket.
 Import ListNotations.
 Open Scope N_scope.
 
@@ -53,7 +53,8 @@ Definition s_response (r : response) : sexp :=
        sopt sbytes (rs_location r); sopt sbytes (rs_content_type r)].
 (** the same function behind Post / Patch / Put (selector 0 / 1 / 2): only the path differs *)
 Definition glue_path (sel : N) : bytes :=
-  if sel =? 1 then L_api_glue ++ [95; 112; 97; 116; 99; 104]      (* "_patch" *)
+  if sel =? 3 then [47; 97; 112; 105; 47; 97; 120; 95; 103; 108; 117; 101]   (* "/api/ax_glue": the same function on the axum backend *)
+  else if sel =? 1 then L_api_glue ++ [95; 112; 97; 116; 99; 104]      (* "_patch" *)
   else if sel =? 2 then L_api_glue ++ [95; 112; 117; 116]         (* "_put" *)
   else L_api_glue.
 Definition glue_server (sel : N) (ref : option referer) : request -> response :=
@@ -64,6 +65,29 @@ Definition glue_client_result : response -> outcome bytes (sfe N) * list bytes :
 Definition glue_remote (sel : N) (x : bytes) : outcome bytes (sfe N) * list bytes :=
   remote N u8_display u8_parse bytes bytes str_enc str_dec str_enc str_dec KDeserialization
     L_text_plain L_text_plain (glue_path sel) demo_body (fun _ => RefRaw []) x.
+
+(** websocket glue (op 22, function 0) *)
+Definition s_item (i : item N bytes) : sexp :=
+  match i with
+  | inl t => Lst [sN 0; sbytes t]
+  | inr e => Lst [sN 1; s_err u8_display e]
+  end.
+Definition as_item (s : sexp) : item N bytes :=
+  if as_N (nth_s 0 s) =? 0 then inl (as_bytes (nth_s 1 s))
+  else inr (as_err_u8 (as_N (nth_s 1 s)) (nth_s 2 s)).
+Definition as_frame (s : sexp) : frame :=
+  if as_N (nth_s 0 s) =? 0 then inl (as_bytes (nth_s 1 s)) else inr (as_bytes (nth_s 1 s)).
+Definition as_edits (dir : N) (s : sexp) : list (nat * frame) :=
+  flat_map (fun e => if as_N (nth_s 0 e) =? dir
+                     then [(as_nat (nth_s 1 e), as_frame (nth_s 2 e))] else [])
+           (as_list s).
+Definition take_items {A} (k : nat) (l : list A) : list A :=
+  match k with O => l | _ => firstn k l end.
+
+(** the text form of encoded values (op 25): encodings 0..2 are text, 3..6 binary *)
+Definition format_of (enc : N) : format := if enc <? 3 then FText else FBinary.
+Definition s_opt_bytes (o : option bytes) : sexp :=
+  match o with Some b => sbytes b | None => Lst [sN 2] end.
 
 Definition run_C13 (c : sexp) : sexp :=
   let cust := as_N (nth_s 1 c) in
@@ -125,6 +149,53 @@ Definition run_C13 (c : sexp) : sexp :=
       Lst [s_result (fst r); Lst (map sbytes (snd r));
            s_result (direct N bytes bytes demo_body x)]
   (* from_server_fn_error *)
+  (* websocket: the glue function's stream, remote (frames replaced in flight) and direct *)
+  | 22%Z =>
+      let items := map as_item (as_list (nth_s 2 c)) in
+      let k := as_nat (nth_s 4 c) in
+      let up := as_edits 0 (nth_s 5 c) in
+      let down := as_edits 1 (nth_s 5 c) in
+      Lst [Lst [sN 0; Lst (map s_item (take_items k (ws_glue_remote up down items)))];
+           Lst [sN 0; Lst (map s_item (take_items k (ws_glue_direct items)))];
+           sN 101]
+  (* the string form of an error: Display of the wrapper, then FromStr *)
+  | 23%Z =>
+      let k := as_N (nth_s 2 c) in
+      let p := nth_s 3 c in
+      if cust =? 0 then
+        match sfe_to_string unit nc_display (as_err_nc k p) with
+        | Some w => Lst [sbytes w; s_err nc_display (sfe_from_str unit nc_parse w)]
+        | None => Lst [sN 2]
+        end
+      else
+        match sfe_to_string N u8_display (as_err_u8 k p) with
+        | Some w => Lst [sbytes w; s_err u8_display (sfe_from_str N u8_parse w)]
+        | None => Lst [sN 2]
+        end
+  | 24%Z =>
+      let data := as_bytes (nth_s 2 c) in
+      if cust =? 0 then s_err nc_display (sfe_from_str unit nc_parse data)
+      else s_err u8_display (sfe_from_str N u8_parse data)
+  (* FormatType of every encoding *)
+  | 25%Z =>
+      let f := format_of cust in
+      let data := as_bytes (nth_s 3 c) in
+      if as_N (nth_s 2 c) =? 0 then
+        match into_encoded_string f data with
+        | Some w => Lst [sbytes w; s_b64 (from_encoded_string f w)]
+        | None => Lst [sN 2]
+        end
+      else s_b64 (from_encoded_string f data)
+  (* the glue function on the axum backend: raw request, and the whole loop when the payload is text *)
+  | 32%Z =>
+      let ref := as_referer (nth_s 3 c) in
+      let data := as_bytes (nth_s 1 c) in
+      Lst [s_response (glue_server 3 ref
+             {| rq_data := data; rq_accept := as_opt as_bytes (nth_s 2 c);
+                rq_referer := option_map referer_string ref |});
+           if utf8_valid data
+           then Lst [s_result (fst (glue_remote 3 data)); s_result (direct N bytes bytes demo_body data)]
+           else Lst []]
   | 16%Z =>
       let k := as_N (nth_s 2 c) in
       let m := as_bytes (nth_s 3 c) in
